@@ -80,6 +80,7 @@ fn main() {
             "c12_roundtrip" => vm::c12_roundtrip(r),
             "c12_op" => vm::c12_op(r),
             "c04_env" => vm::c04_env(r),
+            "c10_run" => vm::c10_run(r),
             "c10_step" => vm::c10_step(r),
             "c18_mint" => c18::c18_mint(r),
             "c09_empty_proof" => c18::c09_empty_proof(r),
